@@ -1955,6 +1955,17 @@ class Engine:
         raise EngineError('`is` on %r / %r' % (a, b))
 
     def py_eq(self, a, b):
+        if getattr(self, 'digit_mode', False):
+            from . import digits as D
+            if isinstance(b, D.DBase) and not isinstance(a, D.DBase):
+                a, b = b, a
+            if isinstance(a, D.DBase):
+                if isinstance(b, AStr) and b.is_lit():
+                    try:
+                        return D.eq_lit(self, a, b.lit())
+                    except D.EngineErrorD as ex:
+                        raise EngineError(str(ex))
+                raise EngineError('comparison of a digit string with %r' % (b,))
         if isinstance(a, NDArr) or isinstance(b, NDArr):
             return self.nd_binary(lambda x, y: self.py_eq(x, y), a, b)
         if isinstance(a, AStr) and isinstance(b, AStr) and a.is_lit() and b.is_lit():
@@ -2089,6 +2100,13 @@ class Engine:
         raise EngineError('comparison of abstract strings %r == %r' % (a, b))
 
     def contains(self, cont, x):
+        if getattr(self, 'digit_mode', False):
+            from . import digits as D
+            if isinstance(cont, D.DBase):
+                try:
+                    return D.contains(self, cont, x)
+                except D.EngineErrorD as ex:
+                    raise EngineError(str(ex))
         if isinstance(cont, SSet):
             return SV(self.set_has(cont, self.key_term(x)), 'bool')
         if isinstance(cont, SDict):
@@ -2131,6 +2149,15 @@ class Engine:
         return self.binop(e.op, a, b)
 
     def binop(self, op, a, b, inplace=False):
+        if getattr(self, 'digit_mode', False):
+            from . import digits as D
+            if isinstance(a, D.DBase) or isinstance(b, D.DBase):
+                if isinstance(op, ast.Add):
+                    try:
+                        return D.concat(self, a, b)
+                    except D.EngineErrorD as ex:
+                        raise EngineError(str(ex))
+                raise EngineError('operator on a digit string')
         if isinstance(a, SArr) or isinstance(b, SArr):
             return self.sarr_binary(lambda x, y: self.binop(op, x, y), a, b)
         if isinstance(a, (NDArr,)) or isinstance(b, (NDArr,)):
@@ -2271,6 +2298,10 @@ class Engine:
         import re
         if not isinstance(args, tuple):
             args = (args,)
+        if getattr(self, 'digit_mode', False):
+            r = self.digit_format(fmt, args)
+            if r is not None:
+                return r
         toks = []
         args = list(args)
         for t in fmt.toks:
@@ -2307,6 +2338,44 @@ class Engine:
         if args:
             raise PyRaise('TypeError', ('not all arguments converted during string formatting',))
         return AStr(toks)
+
+    def digit_format(self, fmt, args):
+        """digit-string mode (pyvc/digits.py): `'%% .%df' % prec` with a symbolic precision is made concrete by forking;
+        `'% .Nf' % x`, `'% e' % x` give digit strings; `'%-9s' % s` pads one"""
+        import re
+        from . import digits as D
+        try:
+            return self._digit_format(fmt, args, D)
+        except D.EngineErrorD as ex:
+            raise EngineError(str(ex))
+
+    def _digit_format(self, fmt, args, D):
+        import re
+        if len(args) == 1 and isinstance(args[0], D.DBase) and fmt.is_lit():
+            m = re.fullmatch(r'%-(\d+)s', fmt.lit())
+            if m:
+                return D.pad_left_justified(self, args[0], int(m.group(1)))
+            if fmt.lit() == '%s':
+                return args[0]
+            raise EngineError('format %r of a digit string' % fmt.lit())
+        if fmt.is_lit() and len(args) == 1 and (is_reallike(args[0]) or isinstance(args[0], Opt)):
+            x = self.unopt(args[0])
+            m = re.fullmatch(r'% \.(\d+)f', fmt.lit())
+            if m:
+                return D.make_fixed(self, x, int(m.group(1)))
+            if fmt.lit() == '% e':
+                return D.make_sci(self, x)
+            if re.fullmatch(r'%%[^%]*%d[a-zA-Z]', fmt.lit()) and is_intlike(x):
+                # building a conversion specification from a computed precision: the value must be concrete
+                if isinstance(x, SV):
+                    for c in range(0, 80):
+                        if self.decide(r_cmp('==', x, c)):
+                            x = c
+                            break
+                    else:
+                        raise EngineError('precision outside 0..79')
+                return AStr([('lit', fmt.lit() % x)])
+        return None
 
     # ---- arrays
     def nd_binary(self, f, a, b):
